@@ -48,6 +48,7 @@ type Knobs struct {
 	ReqCompressBatch         int           `json:"req_compress_batch,omitempty"`
 	ReqCompressSize          int           `json:"req_compress_size,omitempty"`
 	FKConstraints            bool          `json:"fk,omitempty"`
+	MaxReadOnlyConns         int           `json:"max_ro_conns,omitempty"` // cap of the read-only connection pool (0 = unlimited)
 }
 
 // Node is one simulated rqlite node.
@@ -202,6 +203,9 @@ func (n *Node) Start() error {
 	str.ReapReadOnlyTimeout = k.ReapReadOnlyTimeout
 	str.BootstrapExpect = k.BootstrapExpect
 	str.NoVerifyDB = true
+	if k.MaxReadOnlyConns > 0 {
+		str.MaxReadOnlyConns = k.MaxReadOnlyConns
+	}
 	if k.ReqCompressBatch != 0 || k.ReqCompressSize != 0 {
 		str.SetRequestCompression(k.ReqCompressBatch, k.ReqCompressSize)
 	}
